@@ -55,6 +55,10 @@ def gen_desc(rng, k):
         "bulk_prefix": rng.choice(["@", "@", "%"])},
          "files": [["\n".join(lines) + "\n", "naunet"]], "allowed": [], "required": [], "binding": {}, "yield": {}, "cooling": [],
          "heating": [], "shielding": {}, "rate_modifier": {}, "ode_modifier": {}, "grain_model": "", "method": method}
+    if k % 4 == 1 or rng.random() < 0.25:
+        # the network in two files of the same format (forward and backward reactions, say): one format entry per file
+        h = rng.randint(1, len(lines) - 1)
+        d["files"] = [["\n".join(lines[:h]) + "\n", "naunet"], ["\n".join(lines[h:]) + "\n", "naunet"]]
     d["kv_style"], d["item_sep"] = rng.choice([": ", ": ", ":", " : ", " :"]), rng.choice([",", ",", ", "])
     if rng.random() < 0.4 and not upper:
         d["allowed"] = rng.sample(names, rng.randint(4, len(names)))
